@@ -1,6 +1,7 @@
 package main
 
 import (
+	"os/exec"
 	"encoding/json"
 	"fmt"
 	"math/rand"
@@ -310,7 +311,14 @@ func (lr *lbRun) finish(res *lbResult, level string, extra map[string]interface{
 			// one native replay per conv and kind is enough
 			key := f.Conv + "|" + f.Kind
 			convSeen[key]++
-			if convSeen[key] > 1 && replayed >= 6 {
+			if f.Replayed != "" {
+				// replayed by the leg that produced it (scenario leg)
+				status = f.Replayed
+				replayed++
+				if f.ReplayDir != "" {
+					exec.Command("cp", "-r", f.ReplayDir, dir).Run()
+				}
+			} else if convSeen[key] > 1 && replayed >= 6 {
 				status = "unsupported: replay budget"
 			} else {
 				status, _ = res.Driver.Replay(&f, dir)
